@@ -8,6 +8,7 @@ Open Scope N_scope.
 
 (** ---- well-formed templates ---- *)
 Definition k_param : bytes := Eval vm_compute in bs "param".
+Definition k_title : bytes := Eval vm_compute in bs "title".
 
 Definition is_textish (n : node) : bool :=
   match n with NText _ | NBlock _ => true | _ => false end.
@@ -38,7 +39,7 @@ Fixpoint wf_node (n : node) : bool :=
 Fixpoint nta (n : node) : bool :=
   match n with
   | NElem tag _ ch =>
-      (if mem tag parser_rcdata then N.of_nat (List.length (filter renders_text ch)) <=? 1 else true)
+      (if beq tag k_title then N.of_nat (List.length (filter renders_text ch)) <=? 1 else true)
       && forallb nta ch
   | NFrag ch => forallb nta ch
   | _ => true
@@ -79,9 +80,9 @@ Definition foreign (t : bytes) : bool := is_custom t || mem t macro_svg || mem t
 Lemma raw_agree_macro : forall tag, mem tag macro_raw = mem tag parser_raw.
 Proof. reflexivity. Qed.
 
-Lemma raw_agree_tachys : forall tag, mem tag tachys_raw = mem tag parser_raw.
+Lemma tachys_raw_split : forall tag, mem tag tachys_raw = mem tag parser_raw || beq tag k_textarea.
 Proof.
-  intros tag. unfold mem, tachys_raw, parser_raw. cbn [existsb].
+  intros tag. unfold mem, tachys_raw, parser_raw, k_textarea. cbn [existsb].
   repeat match goal with |- context [beq tag ?x] => destruct (beq tag x) end; reflexivity.
 Qed.
 
@@ -94,14 +95,34 @@ Proof.
   rewrite E in H. discriminate.
 Qed.
 
-Lemma b_escape_eq : forall tag, b_escape tag = negb (mem tag parser_raw).
+(** raw-text elements: children neither escaped one by one nor as a whole *)
+Lemma b_escape_raw : forall tag, mem tag parser_raw = true -> b_escape tag = false /\ b_whole tag = false.
 Proof.
-  intros tag. unfold b_escape. fold (foreign tag). rewrite raw_agree_tachys.
-  destruct (foreign tag) eqn:E; [|reflexivity].
-  destruct (mem tag parser_raw) eqn:M; [|reflexivity].
-  assert (H : negb (foreign tag) = true)
-    by (apply (table_forall (fun t => negb (foreign t)) parser_raw); [reflexivity | exact M]).
-  rewrite E in H. discriminate.
+  intros tag M.
+  assert (H : (negb (foreign tag) && negb (beq tag k_textarea)) = true)
+    by (apply (table_forall (fun t => negb (foreign t) && negb (beq t k_textarea)) parser_raw);
+        [reflexivity | exact M]).
+  apply andb_true_iff in H as [H1 H2]. apply negb_true_iff in H1, H2.
+  unfold b_whole, b_escape. fold (foreign tag). rewrite H1, H2, tachys_raw_split, M. now split.
+Qed.
+
+(** neither raw text nor escapable raw text: children escaped one by one *)
+Lemma b_escape_data : forall tag, mem tag parser_raw = false -> mem tag parser_rcdata = false ->
+    b_escape tag = true /\ b_whole tag = false.
+Proof.
+  intros tag M1 M2.
+  assert (Hta : beq tag k_textarea = false).
+  { unfold mem, parser_rcdata in M2. cbn [existsb] in M2. apply orb_false_iff in M2 as [_ M2].
+    now apply orb_false_iff in M2 as [M2 _]. }
+  unfold b_whole, b_escape. fold (foreign tag). rewrite tachys_raw_split, M1, Hta.
+  destruct (foreign tag); now split.
+Qed.
+
+Lemma rcdata_cases : forall tag, mem tag parser_rcdata = true ->
+    (tag = k_title /\ b_escape tag = true /\ b_whole tag = false)
+    \/ (tag = k_textarea /\ b_escape tag = false /\ b_whole tag = true).
+Proof.
+  intros tag M. apply mem_In in M. destruct M as [<-|[<-|[]]]; [left | right]; repeat split.
 Qed.
 
 Lemma raw_not_void : forall tag, mem tag parser_raw = true -> mem tag html_void = false.
@@ -313,19 +334,27 @@ Proof.
       destruct (mem tag html_void) eqn:Ev.
       * rewrite open_tag_void by assumption. rewrite feed_nil.
         now rewrite builder_attrs_denote by assumption.
-      * rewrite open_tag_nonvoid by assumption. rewrite b_escape_eq.
+      * rewrite open_tag_nonvoid by assumption.
         destruct (mem tag parser_raw) eqn:Er.
-        -- apply andb_true_iff in Hraw as [Htx Hls]. cbn [negb].
+        -- destruct (b_escape_raw tag Er) as [-> ->].
+           apply andb_true_iff in Hraw as [Htx Hls].
            rewrite thread_raw_texts by assumption.
            rewrite feed_raw_element_end by assumption.
            fold (dn_list ch []). rewrite dn_list_texts by assumption.
            now rewrite builder_attrs_denote by assumption.
-        -- cbn [negb]. destruct (mem tag parser_rcdata) eqn:Ec.
-           ++ rewrite thread_rc_texts by (try assumption; discriminate).
-              rewrite feed_app, feed_enc_text_rc, feed_end_tag_rc by assumption.
-              fold (dn_list ch []). rewrite dn_list_texts by assumption.
-              now rewrite builder_attrs_denote by assumption.
-           ++ rewrite feed_app, (render_children ch IH) by assumption.
+        -- destruct (mem tag parser_rcdata) eqn:Ec.
+           ++ destruct (rcdata_cases tag Ec) as [(-> & -> & ->) | (-> & -> & ->)].
+              ** cbn in Hnt.
+                 rewrite thread_rc_texts by (try assumption; discriminate).
+                 rewrite feed_app, feed_enc_text_rc, feed_end_tag_rc by assumption.
+                 fold (dn_list ch []). rewrite dn_list_texts by assumption.
+                 now rewrite builder_attrs_denote by assumption.
+              ** rewrite thread_raw_texts by assumption.
+                 rewrite feed_app, feed_enc_text_rc, feed_end_tag_rc by assumption.
+                 fold (dn_list ch []). rewrite dn_list_texts by assumption.
+                 now rewrite builder_attrs_denote by assumption.
+           ++ destruct (b_escape_data tag Er Ec) as [-> ->].
+              rewrite feed_app, (render_children ch IH) by assumption.
               rewrite feed_end_tag by assumption.
               now rewrite builder_attrs_denote by assumption.
   - cbn [r_node dn]. cbn [wf_node] in Hw. cbn [nta] in Hn. fold (dn_list ch cur).
@@ -337,13 +366,31 @@ Definition wf (t : list node) : Prop := forallb wf_node t = true.
 
 (** whatever mixture of inert and builder path the macro takes, the HTML parses to the
     template's denotation *)
+Lemma no_tokens_dn : forall n cur, has_tokens n = false -> dn n cur = cur.
+Proof.
+  induction n as [s|s|tag attrs ch IH|ch IH] using node_ind'; intros cur H; try discriminate.
+  - destruct s; [reflexivity | discriminate].
+  - cbn [has_tokens] in H. cbn [dn]. revert cur. induction IH as [|x ch Hx _ IHch]; intros cur; [reflexivity|].
+    cbn [existsb] in H. apply orb_false_iff in H as [H1 H2]. cbn [fold_left]. rewrite Hx by assumption.
+    now apply IHch.
+Qed.
+
+Lemma no_tokens_dn_list : forall l cur, existsb has_tokens l = false -> dn_list l cur = cur.
+Proof.
+  induction l as [|x l IH]; intros cur H; [reflexivity|].
+  cbn [existsb] in H. apply orb_false_iff in H as [H1 H2].
+  rewrite dn_list_cons, no_tokens_dn by assumption. now apply IH.
+Qed.
+
 Theorem view_denotes : forall io t, wf t -> ~ KnownClass t ->
     parse (view_html io t) = denote t.
 Proof.
   intros io t Hw Hk. unfold KnownClass in Hk. apply not_false_is_true in Hk.
-  unfold parse, view_html, r_list, denote.
-  rewrite (render_children t) by (try assumption; apply Forall_forall; intros; apply render_node_ok).
-  reflexivity.
+  unfold view_html. destruct (existsb has_tokens t) eqn:Et.
+  - unfold parse, r_list, denote.
+    rewrite (render_children t) by (try assumption; apply Forall_forall; intros; apply render_node_ok).
+    reflexivity.
+  - unfold denote. now rewrite no_tokens_dn_list.
 Qed.
 
 Theorem builder_denotes : forall t, wf t -> ~ KnownClass t -> parse (builder_html t) = denote t.
@@ -555,5 +602,12 @@ Proof. split; [vm_compute; discriminate | vm_compute; reflexivity]. Qed.
 Lemma void_tables_agree : forall tag, beq tag k_param = false -> mem tag macro_void = b_void tag.
 Proof. intros tag H. now rewrite b_void_eq, void_agree. Qed.
 
-Lemma raw_tables_agree : forall tag, negb (mem tag macro_raw) = b_escape tag.
-Proof. intros tag. now rewrite b_escape_eq. Qed.
+Lemma raw_tables_agree : forall tag, negb (mem tag macro_raw) = b_escape tag || b_whole tag.
+Proof.
+  intros tag. change (mem tag macro_raw) with (mem tag parser_raw).
+  destruct (mem tag parser_raw) eqn:Er.
+  - now destruct (b_escape_raw tag Er) as [-> ->].
+  - destruct (mem tag parser_rcdata) eqn:Ec.
+    + now destruct (rcdata_cases tag Ec) as [(-> & -> & ->) | (-> & -> & ->)].
+    + now destruct (b_escape_data tag Er Ec) as [-> ->].
+Qed.
